@@ -19,7 +19,7 @@ from pydantic import BaseModel, ValidationError
 from opsim import seams
 from opsim.core import SimBudget, derive
 from opsim.sched import SeqTracer
-from opsim.util import call, weighted
+from opsim.util import call, weighted, quiet
 
 from operon_ai.healing.chaperone_loop import ChaperoneLoop
 from operon_ai.healing.regenerative_swarm import RegenerativeSwarm, WorkerMemory
@@ -240,7 +240,7 @@ class _RecChaperone(Chaperone):
     """The real chaperone; records the error trace of every fold, optionally making it unique per fold."""
 
     def __init__(self, tag, strategies):
-        super().__init__(strategies=strategies, silent=True)
+        super().__init__(strategies=strategies, silent=quiet())
         self.tag = tag
         self.traces = []
 
@@ -288,7 +288,7 @@ def _run_heal(plan, k, tr):
         return HEAL_OUT[sym]
 
     loop = ChaperoneLoop(generator=generator, chaperone=chap, schema=Quote, max_retries=lim,
-                         confidence_decay=cfg["decay"], silent=True)
+                         confidence_decay=cfg["decay"], silent=quiet())
     out = call(loop.heal, cfg["prompt"], tracer=tr)
     n = len(calls)
     k.ev("heal", [out.brief()[0], n])
@@ -418,7 +418,7 @@ def _run_swarm(plan, k, tr):
         return [f"previous worker made {len(memory.task_history)} steps"]
 
     swarm = RegenerativeSwarm(worker_factory=factory, summarizer=summarizer, entropy_threshold=cfg["threshold"],
-                              max_steps_per_worker=max_steps, max_regenerations=regen, silent=True)
+                              max_steps_per_worker=max_steps, max_regenerations=regen, silent=quiet())
     for round_no in range(cfg["supervise"]):
         state.update(spawned=0, workers=[], raised=False)
         out = call(swarm.supervise, "solve it", tracer=tr)
@@ -527,7 +527,7 @@ def _run_tools(plan, k, tr):
         k.fault("collab_raise")
         raise RuntimeError("tool exploded")
 
-    m = Mitochondria(silent=True)
+    m = Mitochondria(silent=quiet())
     if cfg["tools"] == "both":
         m.register_function("calc", calc, "adds")
         m.register_function("boom", boom, "explodes")
